@@ -1,7 +1,655 @@
-//! C15 — not implemented yet.
-use vmon::report::Args;
+//! C15 — random access agrees with scanning.
+//!
+//! After a seeded history (appends, deletes, updates, upserts, compactions; stable row ids on/off)
+//! the ordered scan with `_rowid` and `_rowaddr` is the reference. Compared against it:
+//! `take(offsets)`, `take_rows(row ids)`, `TakeBuilder::try_new_from_addresses(row addresses)`
+//! (with and without the address column), `take_scan(ranges)`, each under a random projection and
+//! with key lists that contain duplicates, unsorted keys, contiguous runs, first/last row and
+//! fragment boundaries. Lists with keys that do not resolve (deleted, out of range, unknown
+//! fragment) must fail cleanly or return exactly the resolvable subsequence ("absent").
 
-pub fn run(_args: &Args) -> i32 {
-    eprintln!("HARNESS-ERROR C15 not implemented");
-    2
+use arrow_array::RecordBatch;
+use futures::TryStreamExt;
+use lance::dataset::{ProjectionRequest, TakeBuilder};
+use lance::Dataset;
+use serde_json::{json, Value};
+use std::collections::{BTreeMap, BTreeSet};
+use std::sync::Arc;
+use vmon::prng::{fnv_str, Rng};
+use vmon::report::{Args, Report};
+use vmon::table::{cell_at, render_row, Cell, Row};
+
+use crate::hist::{check_contents, observe, Finding, Hist, HistCfg, ORow, Obs, Outcome, ROWADDR, ROWID};
+use crate::util::{guard, install_quiet_panic_hook, run_parallel, selftest_requested, Fail, Histo};
+
+#[derive(Clone, Copy, Debug, PartialEq, Eq)]
+pub enum Api {
+    TakeOffsets,
+    TakeRowIds,
+    TakeAddrs,
+    TakeAddrsWithAddr,
+    TakeScan,
+}
+
+impl Api {
+    fn name(&self) -> &'static str {
+        match self {
+            Api::TakeOffsets => "take(offsets)",
+            Api::TakeRowIds => "take_rows(rowids)",
+            Api::TakeAddrs => "take_builder(addresses)",
+            Api::TakeAddrsWithAddr => "take_builder(addresses,with_row_address)",
+            Api::TakeScan => "take_scan(ranges)",
+        }
+    }
+    fn tag(&self) -> &'static str {
+        match self {
+            Api::TakeOffsets => "take-offsets",
+            Api::TakeRowIds => "take-rowids",
+            Api::TakeAddrs => "take-addresses",
+            Api::TakeAddrsWithAddr => "take-addresses-with-addr",
+            Api::TakeScan => "take-scan",
+        }
+    }
+}
+
+/// One random-access result: column names of the returned batch(es) and the rows.
+pub struct Taken {
+    pub names: Vec<String>,
+    pub rows: Vec<Row>,
+}
+
+fn to_taken(batches: &[RecordBatch]) -> Taken {
+    let names = batches
+        .first()
+        .map(|b| b.schema().fields().iter().map(|f| f.name().clone()).collect())
+        .unwrap_or_default();
+    let mut rows = vec![];
+    for b in batches {
+        for i in 0..b.num_rows() {
+            rows.push(b.columns().iter().map(|c| cell_at(c.as_ref(), i)).collect());
+        }
+    }
+    Taken { names, rows }
+}
+
+/// expected cells of `row` under the result's column list
+fn project(obs: &Obs, row: &ORow, names: &[String]) -> Row {
+    names
+        .iter()
+        .map(|n| {
+            if n == ROWID {
+                row.rowid.map(|x| Cell::Int(x as i128)).unwrap_or(Cell::Null)
+            } else if n == ROWADDR {
+                row.rowaddr.map(|x| Cell::Int(x as i128)).unwrap_or(Cell::Null)
+            } else {
+                match obs.names.iter().position(|m| m == n) {
+                    Some(p) => row.cells[p].clone(),
+                    None => Cell::Other(format!("<unexpected column {n}>")),
+                }
+            }
+        })
+        .collect()
+}
+
+/// The deciding oracle: `expected` = for every requested key the scanned row it resolves to (None
+/// if it does not resolve). `all_resolve` lists must come back complete and in order; lists with
+/// unresolvable keys, when they succeed, must equal the resolvable subsequence.
+pub fn oracle(api: Api, obs: &Obs, expected: &[Option<&ORow>], got: &Taken, requested_cols: &[String]) -> Vec<Finding> {
+    let mut out = vec![];
+    let tag = api.tag();
+    let want: Vec<&ORow> = expected.iter().flatten().copied().collect();
+    let hostile = want.len() != expected.len();
+    if !got.rows.is_empty() || !got.names.is_empty() {
+        for c in requested_cols {
+            if !got.names.contains(c) {
+                out.push(Finding::new(
+                    format!("{tag}-projected-column-missing"),
+                    format!("{}: projected column {c} is not in the result {:?}", api.name(), got.names),
+                    json!({}),
+                ));
+                return out;
+            }
+        }
+    }
+    if got.rows.len() != want.len() {
+        // which rows came back?
+        let idp = got.names.iter().position(|n| n == "id");
+        let got_ids: Vec<Option<i64>> = got.rows.iter().map(|r| idp.and_then(|p| r[p].as_i64())).collect();
+        let live: BTreeSet<i64> = obs.rows.iter().map(|r| r.id).collect();
+        let returns_dead = got_ids.iter().flatten().any(|i| !live.contains(i));
+        out.push(Finding::new(
+            if returns_dead {
+                format!("{tag}-returns-row-the-scan-does-not-show")
+            } else if hostile {
+                format!("{tag}-wrong-row-count-with-unresolvable-keys")
+            } else {
+                format!("{tag}-wrong-row-count")
+            },
+            format!(
+                "{}: {} keys ({} resolvable) returned {} rows",
+                api.name(),
+                expected.len(),
+                want.len(),
+                got.rows.len()
+            ),
+            json!({"returned_ids": got_ids.iter().take(40).collect::<Vec<_>>(),
+                   "expected_ids": want.iter().map(|r| r.id).take(40).collect::<Vec<_>>()}),
+        ));
+        return out;
+    }
+    for (i, (w, g)) in want.iter().zip(&got.rows).enumerate() {
+        let e = project(obs, w, &got.names);
+        if &e != g {
+            let idp = got.names.iter().position(|n| n == "id");
+            let same_row = idp.map(|p| g[p] == e[p]).unwrap_or(false);
+            out.push(Finding::new(
+                if same_row {
+                    format!("{tag}-wrong-values")
+                } else if hostile {
+                    format!("{tag}-wrong-row-with-unresolvable-keys")
+                } else {
+                    format!("{tag}-wrong-row-or-order")
+                },
+                format!("{}: result row {i} differs from the scanned row for that key", api.name()),
+                json!({"position": i, "columns": got.names, "expected": render_row(&e), "returned": render_row(g)}),
+            ));
+            break;
+        }
+    }
+    out
+}
+
+fn boundaries(obs: &Obs) -> Vec<usize> {
+    let mut b = vec![];
+    for i in 1..obs.rows.len() {
+        let f0 = obs.rows[i - 1].rowaddr.map(|a| a >> 32);
+        let f1 = obs.rows[i].rowaddr.map(|a| a >> 32);
+        if f0 != f1 {
+            b.push(i - 1);
+            b.push(i);
+        }
+    }
+    b
+}
+
+/// positions into the ordered scan: duplicates, unsorted, contiguous runs, first / last, boundaries
+fn gen_positions(rng: &mut Rng, n: usize, bounds: &[usize]) -> Vec<usize> {
+    if n == 0 {
+        return vec![];
+    }
+    let mut v = vec![];
+    match rng.below(6) {
+        0 => {
+            // contiguous run (fast path of take)
+            let a = rng.usize_below(n);
+            let len = rng.urange(1, (n - a).min(12));
+            v.extend(a..a + len);
+        }
+        1 => {
+            // everything, in order
+            v.extend(0..n);
+        }
+        _ => {
+            let m = rng.urange(1, 24);
+            for _ in 0..m {
+                let p = match rng.below(8) {
+                    0 => 0,
+                    1 => n - 1,
+                    2 | 3 if !bounds.is_empty() => *rng.pick(bounds),
+                    _ => rng.usize_below(n),
+                };
+                v.push(p);
+            }
+            if rng.chance(1, 3) {
+                let d = *rng.pick(&v);
+                v.push(d);
+                v.push(d);
+            }
+            match rng.below(3) {
+                0 => v.sort(),
+                1 => {
+                    v.sort();
+                    v.dedup();
+                }
+                _ => {}
+            }
+        }
+    }
+    v
+}
+
+fn gen_projection(rng: &mut Rng, obs: &Obs, allow_system: bool) -> Vec<String> {
+    let mut cols: Vec<String> = vec![];
+    if rng.chance(1, 3) {
+        cols = obs.names.clone();
+    } else {
+        for n in &obs.names {
+            if n == "id" || rng.bool() {
+                cols.push(n.clone());
+            }
+        }
+    }
+    if allow_system && rng.chance(1, 3) {
+        cols.push(ROWID.into());
+    }
+    if allow_system && rng.chance(1, 4) {
+        cols.push(ROWADDR.into());
+    }
+    cols
+}
+
+struct Ctx<'a> {
+    report: &'a Report,
+    ops: &'a Histo,
+    diag: &'a Histo,
+    behaviour: &'a Histo,
+    apis: &'a Histo,
+}
+
+const WEIGHTS: &[(u32, &str)] = &[
+    (3, "append"),
+    (4, "delete"),
+    (3, "update"),
+    (2, "upsert"),
+    (1, "partial_upsert"),
+    (3, "compact_any"),
+];
+
+async fn run_api(
+    ds: &Arc<Dataset>,
+    api: Api,
+    keys: &[u64],
+    cols: &[String],
+) -> Result<Taken, Fail> {
+    let proj = ProjectionRequest::from_columns(cols.iter(), ds.schema());
+    match api {
+        Api::TakeOffsets => {
+            let b = guard(ds.take(keys, proj)).await?;
+            Ok(to_taken(&[b]))
+        }
+        Api::TakeRowIds => {
+            let b = guard(ds.take_rows(keys, proj)).await?;
+            Ok(to_taken(&[b]))
+        }
+        Api::TakeAddrs | Api::TakeAddrsWithAddr => {
+            let ds2 = ds.clone();
+            let keys = keys.to_vec();
+            let with = api == Api::TakeAddrsWithAddr;
+            let b = guard(async move {
+                let plan = Arc::new(proj.into_projection_plan(ds2.clone())?);
+                TakeBuilder::try_new_from_addresses(ds2, keys, plan)?
+                    .with_row_address(with)
+                    .execute()
+                    .await
+            })
+            .await?;
+            Ok(to_taken(&[b]))
+        }
+        Api::TakeScan => {
+            // keys = [start0, end0, start1, end1, ...]
+            let ranges: Vec<lance::Result<std::ops::Range<u64>>> =
+                keys.chunks(2).map(|c| Ok(c[0]..c[1])).collect();
+            let schema = match proj {
+                ProjectionRequest::Schema(s) => s,
+                _ => unreachable!(),
+            };
+            let ds2 = ds.clone();
+            let bs = guard(async move {
+                let stream = ds2.take_scan(Box::pin(futures::stream::iter(ranges)), schema, 2);
+                let v: Vec<RecordBatch> = stream.try_collect().await?;
+                Ok(v)
+            })
+            .await?;
+            Ok(to_taken(&bs))
+        }
+    }
+}
+
+fn corrupt(t: &mut Taken, rng: &mut Rng) -> bool {
+    if t.rows.is_empty() {
+        return false;
+    }
+    match rng.below(3) {
+        0 if t.rows.len() >= 2 && t.rows[0] != t.rows[t.rows.len() - 1] => {
+            let l = t.rows.len() - 1;
+            t.rows.swap(0, l);
+            true
+        }
+        1 => {
+            t.rows.pop();
+            true
+        }
+        _ => {
+            let i = rng.usize_below(t.rows.len());
+            let c = rng.usize_below(t.rows[i].len());
+            t.rows[i][c] = Cell::Other("corrupted".into());
+            true
+        }
+    }
+}
+
+async fn run_case(cx: &Ctx<'_>, seed: u64, idx: u64, thorough: bool, selftest: bool) -> (u64, u64) {
+    let mut rng = Rng::for_case(seed, idx);
+    let cfg = HistCfg::random(&mut rng, None);
+    let stable = cfg.stable;
+    let mut h = match Hist::create(&mut rng, cfg.clone(), &format!("c15-{seed}-{idx}"), (idx % 4000) as usize + 1).await {
+        Ok(h) => h,
+        Err(e) => {
+            cx.report.harness_error(&format!("case {idx}: create failed: {}", e.brief()));
+            return (0, 0);
+        }
+    };
+    let nsteps = if thorough { rng.urange(4, 14) } else { rng.urange(3, 9) };
+    let mut kinds = vec![];
+    let mut seen_rowids: BTreeSet<u64> = BTreeSet::new();
+    let mut seen_addrs: BTreeSet<u64> = BTreeSet::new();
+    let harvest = |o: &Obs, a: &mut BTreeSet<u64>, b: &mut BTreeSet<u64>| {
+        for r in &o.rows {
+            if let Some(x) = r.rowid {
+                a.insert(x);
+            }
+            if let Some(x) = r.rowaddr {
+                b.insert(x);
+            }
+        }
+    };
+    for _ in 0..nsteps {
+        if let Ok(o) = guard(observe(&h.ds, stable)).await {
+            harvest(&o, &mut seen_rowids, &mut seen_addrs);
+        }
+        let op = h.gen_op(&mut rng, WEIGHTS);
+        let out = h.apply(&mut rng, &op).await;
+        cx.ops.add(op.kind(), 1);
+        match out {
+            Outcome::Applied => kinds.push(op.kind()),
+            Outcome::Rejected(f) | Outcome::Failed(f) => {
+                cx.diag.add(&format!("{}:{}", op.kind(), f.brief().chars().take(100).collect::<String>()), 1)
+            }
+            _ => {}
+        }
+    }
+    // ---- reference: the ordered scan
+    let ds = if rng.bool() {
+        match guard(h.actor.fresh_session().open(&h.uri)).await {
+            Ok(d) => d,
+            Err(e) => {
+                cx.report.inconclusive(&format!("case {idx}: reopen failed: {}", e.brief()));
+                return (0, 0);
+            }
+        }
+    } else {
+        h.ds.clone()
+    };
+    let obs = match guard(observe(&ds, stable)).await {
+        Ok(o) => o,
+        Err(e) => {
+            cx.report.inconclusive(&format!("case {idx}: reference scan failed: {}", e.brief()));
+            return (0, 0);
+        }
+    };
+    let pre = check_contents(&h.model, &obs, "history");
+    if !pre.is_empty() {
+        for f in pre {
+            cx.report.violation(&f.sig, &f.what, json!({"seed": seed, "case": idx, "detail": f.detail, "history": h.log_json()}));
+        }
+        return (0, 0);
+    }
+    let ds = Arc::new(ds);
+    let n = obs.rows.len();
+    let bounds = boundaries(&obs);
+    let by_rowid: BTreeMap<u64, &ORow> = obs.rows.iter().filter_map(|r| r.rowid.map(|x| (x, r))).collect();
+    let by_addr: BTreeMap<u64, &ORow> = obs.rows.iter().filter_map(|r| r.rowaddr.map(|x| (x, r))).collect();
+    if by_rowid.len() != n || by_addr.len() != n {
+        cx.report.violation(
+            "scan-reports-duplicate-rowid-or-rowaddr",
+            "two scanned rows share a _rowid or _rowaddr",
+            json!({"seed": seed, "case": idx, "rows": n, "distinct_rowids": by_rowid.len(), "distinct_addrs": by_addr.len(), "history": h.log_json()}),
+        );
+        return (0, 0);
+    }
+    let dead_rowids: Vec<u64> = seen_rowids.iter().filter(|x| !by_rowid.contains_key(x)).copied().collect();
+    let dead_addrs: Vec<u64> = seen_addrs.iter().filter(|x| !by_addr.contains_key(x)).copied().collect();
+    let max_frag = ds.get_fragments().iter().map(|f| f.id() as u64).max().unwrap_or(0);
+    let (mut applied, mut detected) = (0u64, 0u64);
+    let mut keys_checked = 0u64;
+    let mut hostile_lists = 0u64;
+    let mut apis_done: BTreeSet<&'static str> = BTreeSet::new();
+    let rounds = if thorough { 14 } else { 8 };
+    for round in 0..rounds {
+        let api = *rng.pick(&[
+            Api::TakeOffsets,
+            Api::TakeOffsets,
+            Api::TakeRowIds,
+            Api::TakeRowIds,
+            Api::TakeAddrs,
+            Api::TakeAddrsWithAddr,
+            Api::TakeScan,
+        ]);
+        let hostile = round >= 2 && rng.chance(1, 3) && api != Api::TakeScan;
+        let cols = gen_projection(&mut rng, &obs, api != Api::TakeScan);
+        // ---- keys and what they resolve to
+        let mut keys: Vec<u64> = vec![];
+        let mut expected: Vec<Option<&ORow>> = vec![];
+        if api == Api::TakeScan {
+            let nr = rng.urange(1, 3);
+            for _ in 0..nr {
+                if n == 0 {
+                    break;
+                }
+                let a = rng.usize_below(n);
+                let b = (a + rng.urange(0, 9)).min(n);
+                keys.push(a as u64);
+                keys.push(b as u64);
+                for p in a..b {
+                    expected.push(Some(&obs.rows[p]));
+                }
+            }
+            if keys.is_empty() {
+                continue;
+            }
+        } else {
+            let pos = gen_positions(&mut rng, n, &bounds);
+            for p in pos {
+                let r = &obs.rows[p];
+                keys.push(match api {
+                    Api::TakeOffsets => p as u64,
+                    Api::TakeRowIds => r.rowid.unwrap(),
+                    _ => r.rowaddr.unwrap(),
+                });
+                expected.push(Some(r));
+            }
+            if hostile {
+                let k = rng.urange(1, 3);
+                for _ in 0..k {
+                    let bad: u64 = match api {
+                        Api::TakeOffsets => n as u64 + rng.below(5),
+                        Api::TakeRowIds => {
+                            if !dead_rowids.is_empty() && rng.chance(2, 3) {
+                                *rng.pick(&dead_rowids)
+                            } else if stable {
+                                seen_rowids.iter().max().copied().unwrap_or(0) + 1 + rng.below(100)
+                            } else {
+                                ((max_frag + 1 + rng.below(3)) << 32) | rng.below(4)
+                            }
+                        }
+                        _ => {
+                            if !dead_addrs.is_empty() && rng.chance(2, 3) {
+                                *rng.pick(&dead_addrs)
+                            } else if rng.bool() {
+                                ((max_frag + 1 + rng.below(3)) << 32) | rng.below(4)
+                            } else {
+                                (max_frag << 32) | (100_000 + rng.below(10))
+                            }
+                        }
+                    };
+                    let at = rng.usize_below(keys.len() + 1);
+                    keys.insert(at, bad);
+                    expected.insert(at, None);
+                }
+            }
+            if keys.is_empty() {
+                continue;
+            }
+        }
+        let res = run_api(&ds, api, &keys, &cols).await;
+        cx.apis.add(api.name(), 1);
+        let witness = |extra: Value| {
+            json!({"seed": seed, "case": idx, "api": api.name(), "keys": keys, "projection": cols, "stable_row_ids": stable,
+                   "detail": extra, "history": h.log_json()})
+        };
+        match res {
+            Err(e) => {
+                if hostile {
+                    // documented alternative to "absent": a clean error
+                    cx.behaviour.add(&format!("{} with unresolvable key -> error {}", api.name(), e.class()), 1);
+                    hostile_lists += 1;
+                    if matches!(e, Fail::Panic(_)) {
+                        cx.report.violation(
+                            &format!("{}-panics-on-unresolvable-key", api.tag()),
+                            "random access with a deleted / out-of-range key panics",
+                            witness(json!({"error": e.brief()})),
+                        );
+                        return (applied, detected);
+                    }
+                } else {
+                    cx.report.violation(
+                        &format!("{}-fails-on-live-keys", api.tag()),
+                        &format!("{} fails although every key was reported by the scan", api.name()),
+                        witness(json!({"error": e.brief()})),
+                    );
+                    return (applied, detected);
+                }
+            }
+            Ok(mut got) => {
+                if hostile {
+                    cx.behaviour.add(&format!("{} with unresolvable key -> ok (absent)", api.name()), 1);
+                    hostile_lists += 1;
+                }
+                if selftest {
+                    let mut crng = Rng::for_case(seed ^ 0xFEED, idx * 32 + round as u64);
+                    if !hostile && corrupt(&mut got, &mut crng) {
+                        applied += 1;
+                        if !oracle(api, &obs, &expected, &got, &cols).is_empty() {
+                            detected += 1;
+                        }
+                    }
+                    continue;
+                }
+                let f = oracle(api, &obs, &expected, &got, &cols);
+                keys_checked += keys.len() as u64;
+                apis_done.insert(api.tag());
+                if let Some(f) = f.into_iter().next() {
+                    let sig = format!("{}{}", f.sig, if stable { "-stable-row-ids" } else { "" });
+                    cx.report.violation(&sig, &f.what, witness(f.detail));
+                    return (0, 0);
+                }
+            }
+        }
+    }
+    if selftest {
+        return (applied, detected);
+    }
+    // ---- every _rowid / _rowaddr the scan reports resolves back to the same row
+    if n > 0 {
+        let all_ids: Vec<u64> = obs.rows.iter().map(|r| r.rowid.unwrap()).collect();
+        let all_addrs: Vec<u64> = obs.rows.iter().map(|r| r.rowaddr.unwrap()).collect();
+        let exp: Vec<Option<&ORow>> = obs.rows.iter().map(Some).collect();
+        let cols = vec!["id".to_string(), "v".to_string()];
+        for (api, keys) in [(Api::TakeRowIds, &all_ids), (Api::TakeAddrs, &all_addrs)] {
+            match run_api(&ds, api, keys, &cols).await {
+                Err(e) => {
+                    cx.report.violation(
+                        &format!("{}-fails-on-live-keys", api.tag()),
+                        "resolving every key the scan reported fails",
+                        json!({"seed": seed, "case": idx, "error": e.brief(), "history": h.log_json()}),
+                    );
+                    return (0, 0);
+                }
+                Ok(got) => {
+                    keys_checked += keys.len() as u64;
+                    if let Some(f) = oracle(api, &obs, &exp, &got, &cols).into_iter().next() {
+                        cx.report.violation(
+                            &format!("scan-key-does-not-resolve-back-{}{}", f.sig, if stable { "-stable-row-ids" } else { "" }),
+                            &f.what,
+                            json!({"seed": seed, "case": idx, "detail": f.detail, "history": h.log_json()}),
+                        );
+                        return (0, 0);
+                    }
+                }
+            }
+        }
+    }
+    cx.report.count("keys_compared", keys_checked);
+    cx.report.count("lists_with_unresolvable_keys", hostile_lists);
+    cx.report.count("rows_in_reference_scans", n as u64);
+    let deletions = ds.count_deleted_rows().await.unwrap_or(0);
+    let nontrivial = n >= 2 && ds.count_fragments() >= 2 && apis_done.len() >= 2 && (deletions > 0 || kinds.iter().any(|k| k.starts_with("compact")));
+    let sig = format!(
+        "{:?}|{}|{}|{}|{}",
+        cfg.version,
+        stable,
+        kinds.join(","),
+        ds.count_fragments(),
+        apis_done.iter().copied().collect::<Vec<_>>().join("+")
+    );
+    cx.report.case(if nontrivial { Some(fnv_str(&sig)) } else { None });
+    if nontrivial && cx.report.want_sample() {
+        cx.report.sample(json!({"case": idx, "rows": n, "fragments": ds.count_fragments(), "deleted_rows": deletions,
+                                "apis": apis_done.iter().collect::<Vec<_>>(), "history": h.log_json()}));
+    }
+    (0, 0)
+}
+
+pub fn run(args: &Args) -> i32 {
+    install_quiet_panic_hook();
+    let report = Report::new(
+        args,
+        "exploration",
+        "One case = a seeded history (3-9 ops quick: append/delete/update/upsert/partial merge/compaction; stable row ids \
+         on/off; storage 2.0/2.1/2.2) followed by 8 (quick) random-access calls drawn from take(offsets), take_rows(row ids), \
+         TakeBuilder(addresses)(+address column), take_scan(ranges) with random projections and key lists (duplicates, \
+         unsorted, contiguous, first/last, fragment boundaries; one third with deleted / out-of-range keys), each compared \
+         with the ordered scan; finally every _rowid and _rowaddr of the scan is resolved back. Non-trivial = >=2 fragments, \
+         >=2 rows, deletions or a compaction in the history, >=2 APIs compared; distinct by (version, stable, op kinds, \
+         fragment count, APIs).",
+        (60, 900),
+    )
+    .with_min_nontrivial(args.tier.pick(40, 400));
+    let ops = Histo::default();
+    let diag = Histo::default();
+    let behaviour = Histo::default();
+    let apis = Histo::default();
+    let cx = Ctx {
+        report: &report,
+        ops: &ops,
+        diag: &diag,
+        behaviour: &behaviour,
+        apis: &apis,
+    };
+    let selftest = selftest_requested(args);
+    let thorough = args.tier == vmon::report::Tier::Thorough;
+    let max_cases = if selftest { 60 } else { args.tier.pick(1_500, 40_000) };
+    let st = std::sync::Mutex::new((0u64, 0u64));
+    if let Some(i) = args.extra.get("case").and_then(|s| s.parse::<u64>().ok()) {
+        let rt = tokio::runtime::Builder::new_current_thread().enable_all().build().unwrap();
+        rt.block_on(run_case(&cx, args.seed, i, thorough, false));
+    } else {
+        run_parallel(&report, max_cases, 16, |i, rt| {
+            let r = rt.block_on(run_case(&cx, args.seed, i, thorough, selftest));
+            let mut g = st.lock().unwrap();
+            g.0 += r.0;
+            g.1 += r.1;
+        });
+    }
+    if selftest {
+        let g = st.lock().unwrap();
+        println!("SELFTEST C15 corruptions_applied={} detected={}", g.0, g.1);
+        return if g.0 > 0 && g.0 == g.1 { 0 } else { 2 };
+    }
+    report.set("ops_by_kind", ops.json());
+    report.set("api_calls", apis.json());
+    report.set("behaviour_on_unresolvable_keys", behaviour.json());
+    report.set("op_failures_and_rejections", diag.json());
+    report.assume("the ordered full scan is the reference (its agreement with the written data is C11/C12's subject)");
+    report.finish()
 }
